@@ -191,6 +191,144 @@ func unstartedGuard(p *pkg, fd *ast.FuncDecl) (bool, error) {
 	return false, fmt.Errorf("writeToServerConn: unrecognised statements between the first-read block and the tunnel call")
 }
 
+
+// stickyFact: does (*ShadowStreamConn).read refuse to run after an earlier failure and record the
+// first error other than io.EOF? Recognised shapes: no mention of readErr at all (false), or the guard
+// `if c.readErr != nil { return 0, c.readErr }` followed by `n, err = c.readChunk(b)` and
+// `if err != nil && err != io.EOF { c.readErr = err }` (true); the client's initRead and
+// readFirstPayloadChunk must then record their failures too. Anything else: unrecognised.
+func stickyFact(p *pkg) (bool, error) {
+	rd, err := p.Func("*ShadowStreamConn", "read")
+	if err != nil {
+		return false, err
+	}
+	src := p.Src(rd.Body)
+	ir, err := p.Func("*ShadowStreamClientConn", "initRead")
+	if err != nil {
+		return false, err
+	}
+	fp, err := p.Func("*ShadowStreamClientConn", "readFirstPayloadChunk")
+	if err != nil {
+		return false, err
+	}
+	isrc, fsrc := p.Src(ir.Body), p.Src(fp.Body)
+	if !strings.Contains(src, "readErr") {
+		if strings.Contains(isrc, "readErr") || strings.Contains(fsrc, "readErr") {
+			return false, fmt.Errorf("readErr used by the client paths but not by read")
+		}
+		return false, nil
+	}
+	guard, call, rec := -1, -1, -1
+	for i, st := range rd.Body.List {
+		t := p.Src(st)
+		switch {
+		case t == "if c.readErr != nil { return 0, c.readErr }":
+			guard = i
+		case t == "n, err = c.readChunk(b)":
+			call = i
+		case t == "if err != nil && err != io.EOF { c.readErr = err }":
+			rec = i
+		}
+	}
+	if guard < 0 || call < 0 || rec < 0 || !(guard < call && call < rec) {
+		return false, fmt.Errorf("read: unrecognised use of readErr: %s", src)
+	}
+	if strings.Count(isrc, "c.ShadowStreamConn.readErr = err") != 2 || strings.Count(fsrc, "c.ShadowStreamConn.readErr = err") != 2 {
+		return false, fmt.Errorf("read is sticky but initRead / readFirstPayloadChunk do not record their failures in the recognised way")
+	}
+	// every failure of initRead after the read cipher is assigned must be recorded: the two error returns that follow the assignment
+	after := isrc[strings.Index(isrc, "c.ShadowStreamConn.readCipher = shadowStreamCipher"):]
+	if strings.Count(after, "return 0, err") != strings.Count(after, "c.ShadowStreamConn.readErr = err return 0, err") {
+		return false, fmt.Errorf("initRead: an error return after the read cipher is assigned does not record the error")
+	}
+	return true, nil
+}
+
+// decryptFact: do the three Decrypt helpers advance the nonce only after a successful open?
+func decryptFact(p *pkg) (bool, error) {
+	only := 0
+	always := 0
+	for _, name := range []string{"DecryptInPlace", "DecryptTo", "DecryptAppend"} {
+		fd, err := p.Func("*ShadowStreamCipher", name)
+		if err != nil {
+			return false, err
+		}
+		if len(fd.Body.List) != 3 {
+			return false, fmt.Errorf("%s: unrecognised body: %s", name, p.Src(fd.Body))
+		}
+		if !strings.Contains(p.Src(fd.Body.List[0]), "= c.aead.Open(") || p.Src(fd.Body.List[2]) != "return" {
+			return false, fmt.Errorf("%s: unrecognised body: %s", name, p.Src(fd.Body))
+		}
+		switch p.Src(fd.Body.List[1]) {
+		case "if err == nil { increment(c.nonce[:]) }":
+			only++
+		case "increment(c.nonce[:])":
+			always++
+		default:
+			return false, fmt.Errorf("%s: unrecognised nonce handling: %s", name, p.Src(fd.Body.List[1]))
+		}
+	}
+	if only == 3 {
+		return true, nil
+	}
+	if always == 3 {
+		return false, nil
+	}
+	return false, fmt.Errorf("the Decrypt helpers disagree on when the nonce advances")
+}
+
+// copyFact: does socks5.ConnAddrFromSlice copy the domain name out of the slice (string(...)
+// conversion) or alias it (unsafe.String)? ss2022 parses the request inside a buffer it goes on using.
+func copyFact(p, s *pkg) (bool, error) {
+	var pv *ast.FuncDecl
+	for _, f := range p.files {
+		for _, d := range f.Decls {
+			if fd, ok := d.(*ast.FuncDecl); ok && fd.Recv == nil && fd.Name.Name == "ParseTCPRequestVariableLengthHeader" {
+				pv = fd
+			}
+		}
+	}
+	if pv == nil || !strings.Contains(p.Src(pv.Body), "socks5.ConnAddrFromSlice(b)") {
+		return false, fmt.Errorf("ParseTCPRequestVariableLengthHeader no longer parses the address with socks5.ConnAddrFromSlice")
+	}
+	var fn *ast.FuncDecl
+	for _, f := range s.files {
+		for _, d := range f.Decls {
+			if fd, ok := d.(*ast.FuncDecl); ok && fd.Recv == nil && fd.Name.Name == "ConnAddrFromSlice" {
+				fn = fd
+			}
+		}
+	}
+	if fn == nil {
+		return false, fmt.Errorf("socks5.ConnAddrFromSlice not found")
+	}
+	found, copies := 0, true
+	var bad error
+	ast.Inspect(fn.Body, func(n ast.Node) bool {
+		as, ok := n.(*ast.AssignStmt)
+		if !ok || len(as.Lhs) != 1 || s.Src(as.Lhs[0]) != "domain" {
+			return true
+		}
+		found++
+		rhs := s.Src(as.Rhs[0])
+		switch {
+		case strings.HasPrefix(rhs, "string(b["):
+		case strings.Contains(rhs, "unsafe.String"):
+			copies = false
+		default:
+			bad = fmt.Errorf("ConnAddrFromSlice: unrecognised construction of the domain string: %s", rhs)
+		}
+		return true
+	})
+	if bad != nil {
+		return false, bad
+	}
+	if found != 1 {
+		return false, fmt.Errorf("ConnAddrFromSlice: expected one assignment to domain, found %d", found)
+	}
+	return copies, nil
+}
+
 func main() {
 	gen.Main("C01", func(c *gen.Ctx, l *gen.Lean) error {
 		p, err := load(c.Repo, "ss2022")
@@ -236,6 +374,21 @@ func main() {
 			return err
 		}
 		l.BoolDef("tunnelGuardsUnstartedServer", f3, "ss2022.(*ShadowStreamClientConn).writeToServerConn takes the generic path while the server conn has no write cipher yet")
+		f4, err := stickyFact(p)
+		if err != nil {
+			return err
+		}
+		l.BoolDef("readErrorsSticky", f4, "ss2022.(*ShadowStreamConn).read fails again after an earlier failure other than io.EOF (readErr); the client's initRead / readFirstPayloadChunk record their failures too")
+		f5, err := decryptFact(p)
+		if err != nil {
+			return err
+		}
+		l.BoolDef("decryptAdvancesOnlyOnSuccess", f5, "ss2022.(*ShadowStreamCipher).Decrypt{InPlace,To,Append} increment the nonce only when the AEAD open succeeded")
+		f6, err := copyFact(p, s)
+		if err != nil {
+			return err
+		}
+		l.BoolDef("connAddrFromSliceCopies", f6, "socks5.ConnAddrFromSlice (used by ss2022.ParseTCPRequestVariableLengthHeader on the conn's buffer) copies the domain name out of the slice")
 		return nil
 	})
 }
